@@ -42,22 +42,27 @@ Definition t_mem (k : str) (t : tbl) : bool :=
 End Tbl.
 Arguments tbl V : clear implicits.
 
-(** * Python's [<=] on [str]: lexicographic by code point. *)
-Fixpoint str_leb (a b : str) : bool :=
+(** * Sort keys.  The value a key function returns is modelled as a list of
+    integers compared lexicographically (Python's [<=] on [str] = on the list of
+    code points; on a list of ints; an int is a one-element list, a constant
+    the empty list). *)
+Fixpoint zs_leb (a b : list Z) : bool :=
   match a, b with
   | [], _ => true
   | _ :: _, [] => false
-  | x :: a', y :: b' => if (x <? y)%N then true else if (y <? x)%N then false else str_leb a' b'
+  | x :: a', y :: b' => if (x <? y)%Z then true else if (y <? x)%Z then false else zs_leb a' b'
   end.
+
+Definition zs_eqb : list Z -> list Z -> bool := list_eqb Z.eqb.
 
 (** * Stable sort ([sorted(xs, key=key)]): insertion sort; an element is placed
     before the already sorted elements with an equal key that followed it. *)
 Section Sort.
-Context {A : Type} (key : A -> str).
+Context {A : Type} (key : A -> list Z).
 Fixpoint insert_by (x : A) (l : list A) : list A :=
   match l with
   | [] => [x]
-  | y :: l' => if str_leb (key x) (key y) then x :: l else y :: insert_by x l'
+  | y :: l' => if zs_leb (key x) (key y) then x :: l else y :: insert_by x l'
   end.
 Fixpoint sort_by (l : list A) : list A :=
   match l with
@@ -65,6 +70,37 @@ Fixpoint sort_by (l : list A) : list A :=
   | x :: l' => insert_by x (sort_by l')
   end.
 End Sort.
+
+(** The key functions [sort_fields(key=...)] is exercised with.  [lower] is [str.lower]. *)
+Inductive sortkey :=
+| KDefault      (* key=None: default_field_sort_key = name.lower() *)
+| KLen          (* key=len *)
+| KConst        (* key=lambda f: 0 *)
+| KRank         (* key=lambda f: {'package': 0, 'b': 0, 'description': 2, 'd': 2}.get(f.lower(), 1) *)
+| KRevLex.      (* key=lambda f: [-ord(c) for c in f.lower()] *)
+
+Definition s_package : str := [112; 97; 99; 107; 97; 103; 101]%N.
+Definition s_description : str := [100; 101; 115; 99; 114; 105; 112; 116; 105; 111; 110]%N.
+
+Definition rank_of (l : str) : Z :=
+  if str_eqb l s_package || str_eqb l [98%N] then 0%Z
+  else if str_eqb l s_description || str_eqb l [100%N] then 2%Z
+  else 1%Z.
+
+Definition sort_key (lower : str -> str) (sk : sortkey) (name : str) : list Z :=
+  match sk with
+  | KDefault => map Z.of_N (lower name)
+  | KLen => [Z.of_nat (length name)]
+  | KConst => []
+  | KRank => [rank_of (lower name)]
+  | KRevLex => map (fun c => (- Z.of_N c)%Z) (lower name)
+  end.
+
+Definition sortkey_eqb (a b : sortkey) : bool :=
+  match a, b with
+  | KDefault, KDefault | KLen, KLen | KConst, KConst | KRank, KRank | KRevLex, KRevLex => true
+  | _, _ => false
+  end.
 
 (** * Operations of a history.  [o] is the index of the paragraph object the
     operation is applied to; [OCopy] and [OReparse] append a new object. *)
@@ -79,7 +115,7 @@ Inductive op :=
 | OLast (o : nat) (k : str)         (* d.order_last(k) *)
 | OBefore (o : nat) (k r : str)     (* d.order_before(k, r) *)
 | OAfter (o : nat) (k r : str)      (* d.order_after(k, r) *)
-| OSort (o : nat)                   (* d.sort_fields() *)
+| OSort (o : nat) (sk : sortkey)    (* d.sort_fields(key=...) *)
 | OCopy (o : nat)                   (* objs.append(d.copy()) *)
 | OReparse (o : nat)                (* objs.append(Deb822(d.dump())) *)
 | ODump (o : nat).                  (* d.dump() *)
@@ -87,7 +123,7 @@ Inductive op :=
 Definition op_target (x : op) : nat :=
   match x with
   | OSet o _ _ | OGet o _ | ODel o _ | OContains o _ | OLen o | OIter o
-  | OFirst o _ | OLast o _ | OBefore o _ _ | OAfter o _ _ | OSort o
+  | OFirst o _ | OLast o _ | OBefore o _ _ | OAfter o _ _ | OSort o _
   | OCopy o | OReparse o | ODump o => o
   end.
 
